@@ -56,6 +56,7 @@ def attempt {Î± : Type} : Prog Î± â†’ Prog (Except RadioError Î±)
   | .fail e => .ret (.error e)
   | .panic s => .panic s
   | .io req k => .io req (fun bs => attempt (k bs))
+  | .ioE req k => .ioE req (fun r => attempt (k r))
 
 def b2u (b : Bool) : UInt8 := if b then 1 else 0
 def hi8 (n : Nat) : UInt8 := UInt8.ofNat ((n / 256) % 256)
@@ -365,10 +366,9 @@ def awaitIrq : Prog Unit := Prog.req .irq
 
 def isSet (m : IrqMask) (flags : Nat) : Bool := IrqMask.is_set m flags
 
-/-- `get_irq_state`: the result and the new value of `*cad_activity_detected` (when the caller passed one) -/
-def getIrqState (mode : RadioMode) (cad : Option Bool) : Prog (Option IrqState Ã— Option Bool) := do
-  let (_status, bs) â† intfReadWithStatus [op .GetIrqStatus] 2
-  let flags := byteAt bs 0 * 256 + byteAt bs 1
+/-- the decision part of `get_irq_state`: the result and the new value of
+`*cad_activity_detected` (when the caller passed one) for the IRQ flags read -/
+def decideIrq (mode : RadioMode) (cad : Option Bool) (flags : Nat) : Prog (Option IrqState Ã— Option Bool) :=
   match mode with
   | .transmit =>
     if isSet .TxDone flags then pure (some .done, cad)
@@ -388,11 +388,23 @@ def getIrqState (mode : RadioMode) (cad : Option Bool) : Prog (Option IrqState Ã
   | .listen => pure (none, cad)
   | .frequencySynthesis => .panic "get_irq_state: todo!() for FrequencySynthesis"
 
+/-- `get_irq_state` -/
+def getIrqState (mode : RadioMode) (cad : Option Bool) : Prog (Option IrqState Ã— Option Bool) := do
+  let (_status, bs) â† intfReadWithStatus [op .GetIrqStatus] 2
+  decideIrq mode cad (byteAt bs 0 * 256 + byteAt bs 1)
+
+/-- `get_irq_state(..).await` bound without `?` -/
+def getIrqStateE (mode : RadioMode) (cad : Option Bool) : Prog (Except RadioError (Option IrqState Ã— Option Bool)) := do
+  let r â† intfReadWithStatusE [op .GetIrqStatus] 2
+  match r with
+  | .error e => pure (.error e)
+  | .ok (_status, bs) => attempt (decideIrq mode cad (byteAt bs 0 * 256 + byteAt bs 1))
+
 def clearIrqStatus : Prog Unit := intfWrite [op .ClrIrqStatus, 0xff, 0xff]
 
 /-- `process_irq_event` -/
 def processIrqEvent (mode : RadioMode) (cad : Option Bool) (clear : Bool) : Prog (Option IrqState Ã— Option Bool) := do
-  let st â† attempt (getIrqState mode cad)
+  let st â† getIrqStateE mode cad
   if clear then clearIrqStatus
   match mode, st with
   | .receive (.single _), .ok (some .done, _) => handleImplicitHeaderMode
@@ -790,8 +802,7 @@ def awaitIrq : Prog Unit := Prog.req .irq
 
 def has (m : IrqMask) (flags : UInt8) : Bool := (flags &&& v8 (IrqMask.value m)) == v8 (IrqMask.value m)
 
-def getIrqState (mode : RadioMode) (cad : Option Bool) : Prog (Option IrqState Ã— Option Bool) := do
-  let flags â† readRegister .RegIrqFlags
+def decideIrq (mode : RadioMode) (cad : Option Bool) (flags : UInt8) : Prog (Option IrqState Ã— Option Bool) :=
   match mode with
   | .transmit => if has .TxDone flags then pure (some .done, cad) else pure (none, cad)
   | .receive (.dutyCycle _ _) => .panic "get_irq_state: todo!() for Receive(DutyCycle)"
@@ -808,8 +819,18 @@ def getIrqState (mode : RadioMode) (cad : Option Bool) : Prog (Option IrqState Ã
   | .listen => pure (none, cad)
   | .frequencySynthesis => .panic "get_irq_state: todo!() for FrequencySynthesis"
 
+def getIrqState (mode : RadioMode) (cad : Option Bool) : Prog (Option IrqState Ã— Option Bool) := do
+  let flags â† readRegister .RegIrqFlags
+  decideIrq mode cad flags
+
+def getIrqStateE (mode : RadioMode) (cad : Option Bool) : Prog (Except RadioError (Option IrqState Ã— Option Bool)) := do
+  let r â† intfReadE [rd .RegIrqFlags] 1
+  match r with
+  | .error e => pure (.error e)
+  | .ok bs => attempt (decideIrq mode cad (UInt8.ofNat (byteAt bs 0)))
+
 def processIrqEvent (mode : RadioMode) (cad : Option Bool) (clear : Bool) : Prog (Option IrqState Ã— Option Bool) := do
-  let st â† attempt (getIrqState mode cad)
+  let st â† getIrqStateE mode cad
   if clear then clearIrqStatus
   match st with
   | .ok v => pure v
